@@ -7,11 +7,13 @@ import (
 	"flag"
 	"fmt"
 	"io"
+	"math/big"
 	"os"
 	"sort"
 	"strings"
 
 	"github.com/datastax/go-cassandra-native-protocol/client"
+	"github.com/datastax/go-cassandra-native-protocol/datacodec"
 	"github.com/datastax/go-cassandra-native-protocol/datatype"
 	"github.com/datastax/go-cassandra-native-protocol/frame"
 	"github.com/datastax/go-cassandra-native-protocol/message"
@@ -31,6 +33,13 @@ type csInst struct {
 	segPlain, segLz4   segment.Codec
 	lz4c, snappyc      frame.BodyCompressor
 	held               []*csHeld
+	kept               []*csKept
+}
+
+// csKept is a byte slice an encoder returned and the caller keeps.
+type csKept struct {
+	name string
+	b    []byte // the slice as returned (not a copy)
 }
 
 type csHeld struct {
@@ -190,23 +199,38 @@ func csCatalogue() []csOp {
 			return out.Bytes(), nil
 		}
 	}
+	// a frame with the compression flag whose body is not a valid block
+	decCorrupt := func(pick func(in *csInst) frame.RawCodec, mk func() *frame.Frame) func(in *csInst) ([]byte, error) {
+		return func(in *csInst) ([]byte, error) {
+			src := &bytes.Buffer{}
+			if err := encodeWith(pick(newCsInst()), mk(), src); err != nil {
+				return nil, nil // (reference failure shows as "did not fail")
+			}
+			data := src.Bytes()
+			for i := 13; i < len(data); i += 3 {
+				data[i] ^= 0xa5
+			}
+			_, err := pick(in).DecodeFrame(&slowReader{data})
+			return nil, err
+		}
+	}
 	return []csOp{
-		{Name: "enc.plain.small", Kind: "ok", Props: "C01,C03", run: csEnc(plain, small)},
-		{Name: "enc.plain.empty", Kind: "ok", Props: "C01,C03", run: csEnc(plain, empty)},
-		{Name: "enc.lz4.small", Kind: "ok", Props: "C01,C03", run: csEnc(lz4, csmall)},
-		{Name: "enc.lz4.big", Kind: "ok", Props: "C01,C03", run: csEnc(lz4, cbig)},
-		{Name: "enc.snappy.small", Kind: "ok", Props: "C01,C03", run: csEnc(snappy, csmall)},
-		{Name: "fail.plain.writer", Kind: "fail", Props: "C01,C03", run: csEncFail(plain, other, 12)},
-		{Name: "fail.plain.refused", Kind: "fail", Props: "C01,C03", run: csEncFail(plain, refused, 1<<20)},
-		{Name: "fail.lz4.writer", Kind: "fail", Props: "C01,C03", run: csEncFail(lz4, cbig, 12)},
-		{Name: "fail.snappy.writer", Kind: "fail", Props: "C01,C03", run: csEncFail(snappy, cbig, 9)},
+		{Name: "enc.plain.small", Kind: "ok", Props: "C01,C02,C03", run: csEnc(plain, small)},
+		{Name: "enc.plain.empty", Kind: "ok", Props: "C01,C02,C03", run: csEnc(plain, empty)},
+		{Name: "enc.lz4.small", Kind: "ok", Props: "C01,C02,C03", run: csEnc(lz4, csmall)},
+		{Name: "enc.lz4.big", Kind: "ok", Props: "C01,C02,C03", run: csEnc(lz4, cbig)},
+		{Name: "enc.snappy.small", Kind: "ok", Props: "C01,C02,C03", run: csEnc(snappy, csmall)},
+		{Name: "fail.plain.writer", Kind: "fail", Props: "C01,C02,C03", run: csEncFail(plain, other, 12)},
+		{Name: "fail.plain.refused", Kind: "fail", Props: "C01,C02,C03", run: csEncFail(plain, refused, 1<<20)},
+		{Name: "fail.lz4.writer", Kind: "fail", Props: "C01,C02,C03", run: csEncFail(lz4, cbig, 12)},
+		{Name: "fail.snappy.writer", Kind: "fail", Props: "C01,C02,C03", run: csEncFail(snappy, cbig, 9)},
 		{Name: "raw.a", Kind: "hold", Props: "C05"},
 		{Name: "raw.b", Kind: "hold", Props: "C05"},
 		{Name: "raw.encode", Kind: "use", Props: "C05"},
 		{Name: "dec.plain", Kind: "ok", Props: "C01,C03", run: decStream(plain, small, other, 0)},
-		{Name: "dec.lz4.empty-then-next", Kind: "ok", Props: "C03,C05", run: decStream(lz4, cempty, csmall, 0)},
-		{Name: "dec.snappy", Kind: "ok", Props: "C01,C03", run: decStream(snappy, cbig, csmall, 0)},
-		{Name: "fail.dec.lz4.truncated", Kind: "fail", Props: "C03,C05", run: decStream(lz4, csmall, cbig, 7)},
+		{Name: "dec.lz4.empty-then-next", Kind: "ok", Props: "C03,C05,C08", run: decStream(lz4, cempty, csmall, 0)},
+		{Name: "dec.snappy", Kind: "ok", Props: "C01,C03,C08", run: decStream(snappy, cbig, csmall, 0)},
+		{Name: "fail.dec.lz4.truncated", Kind: "fail", Props: "C03,C05,C08", run: decStream(lz4, csmall, cbig, 7)},
 		{Name: "seg.lz4.fallback", Kind: "ok", Props: "C06", run: csSeg(segLz4, rnd, true)},
 		{Name: "seg.lz4.zeros", Kind: "ok", Props: "C06", run: csSeg(segLz4, zeros, true)},
 		{Name: "seg.lz4.text", Kind: "ok", Props: "C06", run: csSeg(segLz4, text, false)},
@@ -215,10 +239,59 @@ func csCatalogue() []csOp {
 			seg := &segment.Segment{Header: &segment.Header{IsSelfContained: true}, Payload: &segment.Payload{UncompressedData: append([]byte(nil), text...)}}
 			return nil, in.segLz4.EncodeSegment(seg, &brokenWriter{10})
 		}},
+		{Name: "fail.dec.snappy.corrupt", Kind: "fail", Props: "C01,C08", run: decCorrupt(snappy, csmall)},
+		{Name: "fail.dec.lz4.corrupt", Kind: "fail", Props: "C01,C08", run: decCorrupt(lz4, cbig)},
+		{Name: "fail.snappy.decompress", Kind: "fail", Props: "C08", run: func(in *csInst) ([]byte, error) {
+			return nil, in.snappyc.DecompressWithLength(bytes.NewReader([]byte{0xff, 0xff, 0xff, 0x7f, 1, 2, 3, 4, 5, 6, 7, 8, 9}), &bytes.Buffer{})
+		}},
+		{Name: "fail.lz4.decompress", Kind: "fail", Props: "C08", run: func(in *csInst) ([]byte, error) {
+			return nil, in.lz4c.DecompressWithLength(bytes.NewReader([]byte{0, 0, 1, 0, 0xf0, 0xff, 0xff, 0xff, 0xff, 1, 2}), &bytes.Buffer{})
+		}},
+		{Name: "cql.list.encode", Kind: "keep", Props: "C11,C12", run: cqlEnc(cqlListCodec, []int32{1, 2, 3})},
+		{Name: "cql.set.encode", Kind: "keep", Props: "C11,C12", run: cqlEnc(cqlSetCodec, []int32{7, 8, 9, 10})},
+		{Name: "cql.map.encode", Kind: "keep", Props: "C11,C12", run: cqlEnc(cqlMapCodec, map[int32]string{5: "five"})},
+		{Name: "cql.varint.encode", Kind: "keep", Props: "C11,C12", run: cqlEnc(datacodec.Varint, big.NewInt(-123456789))},
+		{Name: "cql.udt.encode", Kind: "keep", Props: "C11,C12", run: cqlEnc(cqlUdtCodec, map[string]interface{}{"a": int32(4), "b": []int32{5, 6}})},
+		{Name: "fail.cql.list.encode", Kind: "fail", Props: "C11,C12", run: cqlEnc(cqlListCodec, []string{"not", "ints"})},
+		{Name: "cql.list.decode", Kind: "ok", Props: "C11,C12", run: func(in *csInst) ([]byte, error) {
+			var d []int32
+			_, err := cqlListCodec.Decode([]byte{0, 0, 0, 2, 0, 0, 0, 4, 0, 0, 0, 9, 0, 0, 0, 4, 0, 0, 0, 8}, &d, primitive.ProtocolVersion4)
+			return []byte(fmt.Sprint(d)), err
+		}},
+		{Name: "fail.cql.list.decode", Kind: "fail", Props: "C11,C12", run: func(in *csInst) ([]byte, error) {
+			var d []int32
+			_, err := cqlListCodec.Decode([]byte{0, 0, 0, 2, 0, 0, 0, 4, 0, 0, 0, 9, 0, 0, 0, 4, 0, 0}, &d, primitive.ProtocolVersion4)
+			return nil, err
+		}},
 		{Name: "lz4.roundtrip", Kind: "ok", Props: "C08", run: comp(func(in *csInst) frame.BodyCompressor { return in.lz4c }, text)},
 		{Name: "lz4.roundtrip.empty", Kind: "ok", Props: "C08", run: comp(func(in *csInst) frame.BodyCompressor { return in.lz4c }, nil)},
 		{Name: "snappy.roundtrip", Kind: "ok", Props: "C08", run: comp(func(in *csInst) frame.BodyCompressor { return in.snappyc }, zeros)},
 	}
+}
+
+// slowReader is a plain io.Reader (not a *bytes.Buffer / *bytes.Reader: codecs may special-case those).
+type slowReader struct{ b []byte }
+
+func (r *slowReader) Read(p []byte) (int, error) {
+	if len(r.b) == 0 {
+		return 0, io.EOF
+	}
+	n := copy(p, r.b)
+	r.b = r.b[n:]
+	return n, nil
+}
+
+var cqlListCodec, _ = datacodec.NewList(datatype.NewList(datatype.Int))
+var cqlSetCodec, _ = datacodec.NewSet(datatype.NewSet(datatype.Int))
+var cqlMapCodec, _ = datacodec.NewMap(datatype.NewMap(datatype.Int, datatype.Varchar))
+var cqlUdtCodec = func() datacodec.Codec {
+	udt, _ := datatype.NewUserDefined("ks", "t", []string{"a", "b"}, []datatype.DataType{datatype.Int, datatype.NewList(datatype.Int)})
+	c, _ := datacodec.NewUserDefined(udt)
+	return c
+}()
+
+func cqlEnc(c datacodec.Codec, v interface{}) func(in *csInst) ([]byte, error) {
+	return func(in *csInst) ([]byte, error) { return c.Encode(v, primitive.ProtocolVersion4) }
 }
 
 func csRawSource(name string) *frame.Frame {
@@ -247,7 +320,11 @@ func csRun(op *csOp, in *csInst) ([]byte, error) {
 		}
 		return buf.Bytes(), nil
 	}
-	return op.run(in)
+	out, err := op.run(in)
+	if op.Kind == "keep" && err == nil {
+		in.kept = append(in.kept, &csKept{op.Name, out})
+	}
+	return out, err
 }
 
 func csRawDigest(raw *frame.RawFrame) []byte {
@@ -280,7 +357,7 @@ func codecSeqMain(args []string) int {
 			}
 			in := newCsInst()
 			switch op.Kind {
-			case "ok", "hold":
+			case "ok", "hold", "keep":
 				out, err := csRun(op, in)
 				if err != nil {
 					fmt.Fprintf(os.Stderr, "codecseq: reference call %s failed: %v\n", op.Name, err)
@@ -371,7 +448,7 @@ func codecSeqMain(args []string) int {
 				if err == nil {
 					bad(i, op, "no-error: the call was made to fail and returned no error")
 				}
-			case "ok", "hold":
+			case "ok", "hold", "keep":
 				if err != nil {
 					bad(i, op, fmt.Sprintf("error: a call that succeeds when made alone failed: %v", err))
 				} else if !bytes.Equal(out, ref[op.Name]) {
@@ -389,6 +466,11 @@ func codecSeqMain(args []string) int {
 			for _, hd := range in.held {
 				if !bytes.Equal(csRawDigest(hd.raw), ref[hd.name]) {
 					bad(i, byName[hd.name], fmt.Sprintf("held-changed: the raw frame returned by %s changed under the caller's feet after %s", hd.name, op.Name))
+				}
+			}
+			for _, kp := range in.kept {
+				if !bytes.Equal(kp.b, ref[kp.name]) {
+					bad(i, byName[kp.name], fmt.Sprintf("kept-changed: the bytes returned by %s changed under the caller's feet after %s", kp.name, op.Name))
 				}
 			}
 			distinct[strings.Join(names[:i+1], ">")] = true
